@@ -7,3 +7,5 @@ open Neutrino.Disp
 #print axioms C12_rank
 #print axioms C12_reissue
 #print axioms C12_success_all_partial
+#print axioms C12_success_all
+#print axioms C12_subs_recorded
